@@ -1108,6 +1108,385 @@ Proof.
     destruct H as [x [Hin _]]. eapply Hfst; exact Hin.
   - destruct e; cbn [err_ok] in H; try contradiction; exact Logic.I.
   - intros ln -> Hwf. cbn [err_ok] in H. destruct H as [x [Hin [[lit [Hl Hlong]]|[inl [op [-> Hat]]]]]].
-    + exists x, lit. repeat split; assumption.
+    + exists x, lit. split; [exact Hin | split; [exact Hl | exact Hlong]].
     + rewrite (Hwf _ _ _ Hin) in Hat. discriminate Hat.
+Qed.
+
+(** * 5. Layout of a successfully assembled program *)
+
+Lemma built_encode_mod i : built i -> toy_encode i mod 65536 = toy_encode i.
+Proof. intros [op [a ->]]. pose proof (mk_tinstr_encode_range op a). lia. Qed.
+
+(* cells at or below the final "last unused" address are not touched by the data pass *)
+Lemma write_data_low size data : forall last labels m last' labels' m',
+  toy_write_data (toy_memcfg size) data last labels m = POk (last', labels', m') ->
+  forall k, k <= last - Z.of_nat (nvals data) -> mget m' k = mget m k.
+Proof.
+  induction data as [|[ln0 x0] t IH]; intros last labels m last' labels' m' H k Hk.
+  - cbn [toy_write_data] in H. injection H as <- <- <-. reflexivity.
+  - cbn [toy_write_data] in H.
+    destruct x0 as [d|name0 vals0|inl op opnd|name0]; try discriminate H.
+    destruct (last - Z.of_nat (length vals0) + 1 <? 0) eqn:Eneg; [discriminate H|].
+    destruct (add_label labels name0 (last - Z.of_nat (length vals0) + 1) ln0) as [lb1|e1] eqn:Ea;
+      [|discriminate H].
+    destruct (toy_write_vals (toy_memcfg size) m (last - Z.of_nat (length vals0) + 1) vals0 ln0)
+      as [m1|e1] eqn:Ew; [|discriminate H].
+    destruct (write_vals_spec _ _ _ _ _ _ Ew) as [_ [Wf _]].
+    cbn [nvals] in Hk.
+    rewrite (IH _ _ _ _ _ _ H k) by lia. apply Wf. lia.
+Qed.
+
+Lemma toy_load_ok_parse s toks s' data text labels ins :
+  toy_load s toks = (s', None) ->
+  toy_parse (t_size s) toks = Some (data, text, labels, ins) ->
+  exists last m m',
+    stages (t_size s) toks data text labels ins last m /\
+    Z.of_nat (length ins) - 1 <= last /\
+    toy_write_instrs (toy_memcfg (t_size s)) m 0 ins = POk m' /\
+    s' = toy_final s ins m'.
+Proof.
+  intros H Hp.
+  apply toy_load_ok_iff in H as [d [t [lb [r [last [m [m' [Hst [Hle [Hwi ->]]]]]]]]]].
+  assert (Hp': toy_parse (t_size s) toks = Some (d, t, lb, r))
+    by (apply toy_parse_stages; exists last, m; exact Hst).
+  rewrite Hp in Hp'. injection Hp' as -> -> -> ->.
+  exists last, m, m'. repeat split; assumption.
+Qed.
+
+Lemma toy_assemble_layout_lem : forall s toks s', toy_load s toks = (s', None) ->
+  exists data text labels ins,
+    toy_parse (t_size s) toks = Some (data, text, labels, ins) /\
+    length ins = ninstr text /\
+    (forall i, (i < length ins)%nat ->
+       mget (t_mem s') (Z.of_nat i) = toy_encode (nth i ins nop)) /\
+    Z.of_nat (length ins) + Z.of_nat (nvals data) <= t_size s /\
+    (forall k, Z.of_nat (length ins) <= k < t_size s - Z.of_nat (nvals data) ->
+       mget (t_mem s') k = 0) /\
+    t_maxpc s' = Some (Z.of_nat (length ins) - 1) /\
+    t_loaded s' = hd_error ins /\
+    t_pc s' = 1 /\ t_accu s' = 0 /\ t_icount s' = 0 /\ t_cycles s' = 0 /\ t_bcount s' = 0 /\
+    t_cur s' = None /\ t_next s' = 0 /\
+    t_size s' = t_size s /\ t_nextcycle s' = t_nextcycle s /\ t_started s' = t_started s.
+Proof.
+  intros s toks s' H.
+  apply toy_load_ok_iff in H as [d [t [lb [r [last [m [m' [Hst [Hle [Hwi ->]]]]]]]]]].
+  exists d, t, lb, r.
+  split; [apply toy_parse_stages; exists last, m; exact Hst|].
+  destruct Hst as [lb0 [Hs [Hl [Hw Hi]]]].
+  destruct (instantiate_spec _ _ _ Hi) as [Ilen [Ib _]].
+  destruct (write_instrs_spec _ _ _ _ _ Hwi) as [Wv Wf].
+  destruct (write_data_spec _ _ _ _ _ _ _ _ Hw) as [Dl _].
+  cbn [toy_final t_mem t_maxpc t_loaded t_pc t_accu t_icount t_cycles t_bcount t_cur t_next
+       t_size t_nextcycle t_started].
+  split; [exact Ilen|]. split.
+  { intros i Hi'. replace (Z.of_nat i) with (0 + Z.of_nat i) by lia. rewrite (Wv i Hi').
+    apply built_encode_mod. rewrite Forall_forall in Ib. apply Ib. apply nth_In; exact Hi'. }
+  split; [lia|]. split.
+  { intros k Hk. rewrite Wf by lia.
+    rewrite (write_data_low _ _ _ _ _ _ _ _ Hw k) by lia. reflexivity. }
+  repeat split; reflexivity.
+Qed.
+
+Lemma toy_data_layout_lem : forall s toks s' data text labels ins,
+  toy_load s toks = (s', None) ->
+  toy_parse (t_size s) toks = Some (data, text, labels, ins) ->
+  Forall var_line data /\
+  forall pre ln name vals post, data = pre ++ (ln, TLVar name vals) :: post ->
+    let start := t_size s - Z.of_nat (nvals pre + length vals) in
+    Z.of_nat (length ins) <= start /\
+    mget_opt labels name = Some start /\
+    forall j, (j < length vals)%nat ->
+      exists z, toy_value (nth j vals []) = Some z /\
+                mget (t_mem s') (start + Z.of_nat j) = z mod 65536.
+Proof.
+  intros s toks s' data text labels ins H Hp.
+  destruct (toy_load_ok_parse _ _ _ _ _ _ _ H Hp) as [last [m [m' [Hst [Hle [Hwi ->]]]]]].
+  destruct Hst as [lb0 [Hs [Hl [Hw Hi]]]].
+  destruct (write_instrs_spec _ _ _ _ _ Hwi) as [_ Wf].
+  destruct (write_data_spec _ _ _ _ _ _ _ _ Hw) as [Dl [DF [_ [_ [_ Dv]]]]].
+  split; [exact DF|].
+  intros pre ln name vals post Hd. cbv zeta.
+  destruct (Dv _ _ _ _ _ Hd) as [Dlab Dcells]. cbv zeta in Dlab, Dcells.
+  replace (t_size s - 1 + 1 - Z.of_nat (nvals pre + length vals))
+    with (t_size s - Z.of_nat (nvals pre + length vals)) in * by lia.
+  assert (Hn: nvals data = (nvals pre + length vals + nvals post)%nat).
+  { rewrite Hd, nvals_app, (nvals_cons _ post). cbn [nvals]. lia. }
+  split; [lia|]. split; [exact Dlab|].
+  intros j Hj. destruct (Dcells j Hj) as [z [Hz Hm]]. exists z; split; [exact Hz|].
+  cbn [toy_final t_mem]. rewrite Wf by lia. exact Hm.
+Qed.
+
+Lemma toy_labels_resolve_lem : forall size toks data text labels ins,
+  toy_parse size toks = Some (data, text, labels, ins) ->
+  (forall pre ln x post name, toks = pre ++ (ln, x) :: post -> declares_label x name ->
+     mget_opt labels name = Some (Z.of_nat (ninstr pre))) /\
+  (forall pre ln name vals post, data = pre ++ (ln, TLVar name vals) :: post ->
+     mget_opt labels name = Some (size - Z.of_nat (nvals pre + length vals))) /\
+  (forall pre ln inl op opnd post, text = pre ++ (ln, TLInstr inl op opnd) :: post ->
+     instr_denotes labels op opnd (nth (ninstr pre) ins nop)) /\
+  length ins = ninstr text.
+Proof.
+  intros size toks data text labels ins Hp.
+  apply toy_parse_stages in Hp as [last [m [lb0 [Hs [Hl [Hw Hi]]]]]].
+  destruct (toy_labels_spec _ _ _ _ Hl) as [_ Ll].
+  destruct (write_data_spec _ _ _ _ _ _ _ _ Hw) as [_ [_ [_ [_ [De Dv]]]]].
+  destruct (instantiate_spec _ _ _ Hi) as [Ilen [_ [_ Id]]].
+  split; [|split; [|split]].
+  - intros pre ln x post name Ht Hd. apply De. rewrite (Ll _ _ _ _ _ Ht Hd). f_equal; lia.
+  - intros pre ln name vals post Hd. destruct (Dv _ _ _ _ _ Hd) as [Dlab _]. cbv zeta in Dlab.
+    rewrite Dlab. f_equal; lia.
+  - exact Id.
+  - exact Ilen.
+Qed.
+
+(* an address-type instruction whose operand is a label or a variable name gets that address,
+   wherever the declaration stands (before or after the instruction, in either segment) *)
+Lemma toy_label_operand_lem : forall size toks data text labels ins,
+  toy_parse size toks = Some (data, text, labels, ins) ->
+  forall preI lnI inl op l postI, text = preI ++ (lnI, TLInstr inl op (TLabel l)) :: postI ->
+    is_address_type op = true ->
+    (forall preL ln x postL, toks = preL ++ (ln, x) :: postL -> declares_label x l ->
+       nth (ninstr preI) ins nop = mk_tinstr op (Z.of_nat (ninstr preL))) /\
+    (forall preV ln vals postV, data = preV ++ (ln, TLVar l vals) :: postV ->
+       nth (ninstr preI) ins nop = mk_tinstr op (size - Z.of_nat (nvals preV + length vals))).
+Proof.
+  intros size toks data text labels ins Hp preI lnI inl op l postI Ht Hat.
+  destruct (toy_labels_resolve_lem _ _ _ _ _ _ Hp) as [Rl [Rv [Ri _]]].
+  specialize (Ri _ _ _ _ _ _ Ht). unfold instr_denotes in Ri. rewrite Hat in Ri.
+  destruct Ri as [a [Ha ->]]. split.
+  - intros preL ln x postL Hl Hd. rewrite (Rl _ _ _ _ _ Hl Hd) in Ha. injection Ha as <-. reflexivity.
+  - intros preV ln vals postV Hd. rewrite (Rv _ _ _ _ _ Hd) in Ha. injection Ha as <-. reflexivity.
+Qed.
+
+(** ** Segment order *)
+
+Lemma stages_transfer size toks toks' D T D' T' lb ins last m :
+  stages size toks D T lb ins last m ->
+  segment tdir_of toks' = POk (D', T') ->
+  map snd D = map snd D' -> map snd T = map snd T' ->
+  (forall r, toy_labels toks 0 [] = POk r -> toy_labels toks' 0 [] = POk r) ->
+  stages size toks' D' T' lb ins last m.
+Proof.
+  intros [lb0 [Hs [Hl [Hw Hi]]]] Hs' HD HT Hlab. exists lb0.
+  split; [exact Hs'|]. split; [apply Hlab; exact Hl|].
+  split; [eapply write_data_erase; eassumption | eapply instantiate_erase; eassumption].
+Qed.
+
+(* two token lists that denote the same program: same data lines and same text lines up to
+   line numbers, same label pass *)
+Definition same_program (toks toks' : list (Z * tline)) : Prop :=
+  exists D T D' T',
+    segment tdir_of toks = POk (D, T) /\ segment tdir_of toks' = POk (D', T') /\
+    map snd D = map snd D' /\ map snd T = map snd T' /\
+    forall r, toy_labels toks 0 [] = POk r <-> toy_labels toks' 0 [] = POk r.
+
+Lemma same_program_sym a b : same_program a b -> same_program b a.
+Proof.
+  intros [D [T [D' [T' [Hs [Hs' [HD [HT Hl]]]]]]]]. exists D', T', D, T.
+  repeat split; try assumption; try (symmetry; assumption); apply Hl.
+Qed.
+
+Lemma same_program_load_imp s toks toks' : same_program toks toks' ->
+  forall s', toy_load s toks = (s', None) -> toy_load s toks' = (s', None).
+Proof.
+  intros [D [T [D' [T' [Hs [Hs' [HD [HT Hlab]]]]]]]] s' H.
+  apply toy_load_ok_iff in H as [d [t [lb [r [last [m [m' [Hst [Hle [Hwi ->]]]]]]]]]].
+  apply toy_load_ok_iff.
+  assert (Hdt: d = D /\ t = T).
+  { destruct Hst as [lb0 [Hs0 _]]. rewrite Hs in Hs0. injection Hs0 as <- <-. split; reflexivity. }
+  destruct Hdt as [-> ->].
+  exists D', T', lb, r, last, m, m'. split.
+  - eapply stages_transfer; try eassumption. intros r0 Hr0; apply Hlab; exact Hr0.
+  - repeat split; assumption.
+Qed.
+
+Lemma same_program_parse_imp size toks toks' : same_program toks toks' ->
+  forall lb ins, (exists d t, toy_parse size toks = Some (d, t, lb, ins)) ->
+                 (exists d t, toy_parse size toks' = Some (d, t, lb, ins)).
+Proof.
+  intros [D [T [D' [T' [Hs [Hs' [HD [HT Hlab]]]]]]]] lb ins [d [t Hp]].
+  apply toy_parse_stages in Hp as [last [m Hst]].
+  assert (Hdt: d = D /\ t = T).
+  { destruct Hst as [lb0 [Hs0 _]]. rewrite Hs in Hs0. injection Hs0 as <- <-. split; reflexivity. }
+  destruct Hdt as [-> ->].
+  exists D', T'. apply toy_parse_stages. exists last, m.
+  eapply stages_transfer; try eassumption. intros r0 Hr0; apply Hlab; exact Hr0.
+Qed.
+
+Lemma same_program_consequences s toks toks' : same_program toks toks' ->
+  (forall s', toy_load s toks = (s', None) <-> toy_load s toks' = (s', None)) /\
+  (forall size lb ins, (exists d t, toy_parse size toks = Some (d, t, lb, ins)) <->
+                       (exists d t, toy_parse size toks' = Some (d, t, lb, ins))).
+Proof.
+  intros Hsp. pose proof (same_program_sym _ _ Hsp) as Hsp'. split.
+  - intros s'. split; apply same_program_load_imp; assumption.
+  - intros size lb ins. split; apply same_program_parse_imp; assumption.
+Qed.
+
+Lemma Forall_snd_transfer (P : tline -> Prop) l : forall l', map snd l = map snd l' ->
+  Forall (fun x : Z * tline => P (snd x)) l -> Forall (fun x : Z * tline => P (snd x)) l'.
+Proof.
+  induction l as [|x t IH]; intros [|x' t'] Hm HF; try discriminate Hm; [constructor|].
+  cbn [map] in Hm. injection Hm as Hx Ht. inversion HF as [|? ? Hp Hr]; subst.
+  constructor; [rewrite <- Hx; exact Hp | apply IH; assumption].
+Qed.
+
+Lemma var_line_transfer l l' : map snd l = map snd l' -> Forall var_line l -> Forall var_line l'.
+Proof. apply (Forall_snd_transfer (fun y => exists name vals, y = TLVar name vals)). Qed.
+Lemma code_line_transfer l l' : map snd l = map snd l' -> Forall code_line l -> Forall code_line l'.
+Proof.
+  apply (Forall_snd_transfer (fun y => (exists name, y = TLLabel name) \/
+                                       (exists inl op opnd, y = TLInstr inl op opnd))).
+Qed.
+
+Lemma var_line_plain x : var_line x -> plain_line x.
+Proof. intros [name [vals Hx]]. unfold plain_line. rewrite Hx. reflexivity. Qed.
+Lemma var_line_quiet x : var_line x -> quiet_line x.
+Proof. intros [name [vals Hx]]. unfold quiet_line. rewrite Hx. exact Logic.I. Qed.
+Lemma code_line_plain x : code_line x -> plain_line x.
+Proof.
+  intros [[name Hx]|[inl [op [opnd Hx]]]]; unfold plain_line; rewrite Hx; reflexivity.
+Qed.
+
+Lemma toy_labels_erase_iff l l' pcv lb : map snd l = map snd l' ->
+  forall r, toy_labels l pcv lb = POk r <-> toy_labels l' pcv lb = POk r.
+Proof.
+  intros Hm r. split; apply toy_labels_erase; [exact Hm | symmetry; exact Hm].
+Qed.
+
+Lemma labels_data_text a b D T : Forall var_line D ->
+  toy_labels ((a, TLDirective 1) :: D ++ (b, TLDirective 0) :: T) 0 [] = toy_labels T 0 [].
+Proof.
+  intros HD. cbn [toy_labels]. rewrite toy_labels_skip_front.
+  - reflexivity.
+  - eapply Forall_impl; [|exact HD]. exact var_line_quiet.
+Qed.
+
+Lemma labels_text_data c d D T : Forall var_line D ->
+  toy_labels ((c, TLDirective 0) :: T ++ (d, TLDirective 1) :: D) 0 [] = toy_labels T 0 [].
+Proof.
+  intros HD. cbn [toy_labels]. apply toy_labels_skip_back.
+  constructor; [exact Logic.I|]. eapply Forall_impl; [|exact HD]. exact var_line_quiet.
+Qed.
+
+Lemma segment_order_same_program : forall a b c d D1 T1 D2 T2,
+  Forall var_line D1 -> Forall code_line T1 ->
+  map snd D1 = map snd D2 -> map snd T1 = map snd T2 ->
+  ~ In b (map fst D1) -> ~ In d (map fst T2) ->
+  same_program ((a, TLDirective 1) :: D1 ++ (b, TLDirective 0) :: T1)
+               ((c, TLDirective 0) :: T2 ++ (d, TLDirective 1) :: D2).
+Proof.
+  intros a b c d D1 T1 D2 T2 HD1 HT1 HD HT Hb Hd.
+  pose proof (var_line_transfer _ _ HD HD1) as HD2.
+  pose proof (code_line_transfer _ _ HT HT1) as HT2.
+  exists D1, T1, D2, T2.
+  split; [apply segment_data_text; try assumption;
+          eapply Forall_impl; try eassumption; [exact var_line_plain | exact code_line_plain]|].
+  split; [apply segment_text_data; try assumption;
+          eapply Forall_impl; try eassumption; [exact var_line_plain | exact code_line_plain]|].
+  split; [exact HD|]. split; [exact HT|].
+  intros r. rewrite labels_data_text, labels_text_data by assumption.
+  apply toy_labels_erase_iff; exact HT.
+Qed.
+
+Lemma segment_order_plain_same_program : forall a b T1 T3,
+  Forall code_line T1 -> map snd T1 = map snd T3 ->
+  same_program ((a, TLDirective 1) :: [] ++ (b, TLDirective 0) :: T1) T3.
+Proof.
+  intros a b T1 T3 HT1 HT.
+  pose proof (code_line_transfer _ _ HT HT1) as HT3.
+  exists [], T1, [], T3.
+  split; [apply segment_data_text; [constructor | | intros []];
+          eapply Forall_impl; try eassumption; exact code_line_plain|].
+  split; [apply segment_undirected; eapply Forall_impl; try eassumption; exact code_line_plain|].
+  split; [reflexivity|]. split; [exact HT|].
+  intros r. rewrite labels_data_text by constructor.
+  apply toy_labels_erase_iff; exact HT.
+Qed.
+
+Lemma segment_order_irrelevant_lem : forall s a b c d D1 T1 D2 T2,
+  Forall var_line D1 -> Forall code_line T1 ->
+  map snd D1 = map snd D2 -> map snd T1 = map snd T2 ->
+  ~ In b (map fst D1) -> ~ In d (map fst T2) ->
+  let L1 := (a, TLDirective 1) :: D1 ++ (b, TLDirective 0) :: T1 in
+  let L2 := (c, TLDirective 0) :: T2 ++ (d, TLDirective 1) :: D2 in
+  (forall s', toy_load s L1 = (s', None) <-> toy_load s L2 = (s', None)) /\
+  (forall size lb ins, (exists dt tx, toy_parse size L1 = Some (dt, tx, lb, ins)) <->
+                       (exists dt tx, toy_parse size L2 = Some (dt, tx, lb, ins))).
+Proof.
+  intros s a b c d D1 T1 D2 T2 HD1 HT1 HD HT Hb Hd. cbv zeta.
+  apply same_program_consequences. apply segment_order_same_program; assumption.
+Qed.
+
+Lemma segment_order_plain_lem : forall s a b T1 T3,
+  Forall code_line T1 -> map snd T1 = map snd T3 ->
+  let L1 := (a, TLDirective 1) :: (b, TLDirective 0) :: T1 in
+  (forall s', toy_load s L1 = (s', None) <-> toy_load s T3 = (s', None)) /\
+  (forall size lb ins, (exists dt tx, toy_parse size L1 = Some (dt, tx, lb, ins)) <->
+                       (exists dt tx, toy_parse size T3 = Some (dt, tx, lb, ins))).
+Proof.
+  intros s a b T1 T3 HT1 HT. cbv zeta.
+  apply same_program_consequences. apply (segment_order_plain_same_program a b T1 T3); assumption.
+Qed.
+
+(* data lines hold no instructions: a label's value, counted over the whole token list, is its
+   instruction index inside the text block, whatever the order of the segments *)
+Lemma ninstr_var_lines D : Forall var_line D -> ninstr D = O.
+Proof.
+  intros HD. induction HD as [|[ln x] t [name [vals Hx]] Ht IH]; [reflexivity|].
+  cbn [snd] in Hx. subst x. cbn [ninstr]. exact IH.
+Qed.
+
+Lemma ninstr_shapes_lem : forall a b D pre, Forall var_line D ->
+  ninstr ((a, TLDirective 1) :: D ++ (b, TLDirective 0) :: pre) = ninstr pre /\
+  ninstr ((a, TLDirective 0) :: pre) = ninstr pre /\
+  (forall post, ninstr ((a, TLDirective 0) :: (pre ++ post) ++ (b, TLDirective 1) :: D)
+                = ninstr (pre ++ post)).
+Proof.
+  intros a b D pre HD. split; [|split].
+  - cbn [ninstr]. rewrite ninstr_app. cbn [ninstr]. rewrite (ninstr_var_lines D) by assumption. lia.
+  - reflexivity.
+  - intros post. cbn [ninstr]. rewrite (ninstr_app (pre ++ post)). cbn [ninstr].
+    rewrite (ninstr_var_lines D) by assumption. lia.
+Qed.
+
+(** ** segment_spec *)
+
+Lemma segment_spec_lem :
+  (* shapes that are accepted *)
+  segment tdir_of [] = POk ([], []) /\
+  (forall T, Forall plain_line T -> segment tdir_of T = POk ([], T)) /\
+  (forall c T, Forall plain_line T -> segment tdir_of ((c, TLDirective 0) :: T) = POk ([], T)) /\
+  (forall a D, Forall plain_line D -> segment tdir_of ((a, TLDirective 1) :: D) = POk (D, [])) /\
+  (forall a b D T, Forall plain_line D -> Forall plain_line T -> ~ In b (map fst D) ->
+     segment tdir_of ((a, TLDirective 1) :: D ++ (b, TLDirective 0) :: T) = POk (D, T)) /\
+  (forall c d D T, Forall plain_line D -> Forall plain_line T -> ~ In d (map fst T) ->
+     segment tdir_of ((c, TLDirective 0) :: T ++ (d, TLDirective 1) :: D) = POk (D, T)) /\
+  (forall p T d D, Forall plain_line (p :: T) -> Forall plain_line D -> ~ In d (map fst (p :: T)) ->
+     segment tdir_of (p :: T ++ (d, TLDirective 1) :: D) = POk (D, p :: T)) /\
+  (* shapes that are rejected, at the offending line *)
+  (forall a A ln B, Forall plain_line A ->
+     segment tdir_of ((a, TLDirective 1) :: A ++ (ln, TLDirective 1) :: B) = PErr (PDirective ln)) /\
+  (forall c A ln B, Forall plain_line A ->
+     segment tdir_of ((c, TLDirective 0) :: A ++ (ln, TLDirective 0) :: B) = PErr (PDirective ln)) /\
+  (forall p A ln B, Forall plain_line (p :: A) ->
+     segment tdir_of (p :: A ++ (ln, TLDirective 0) :: B) = PErr (PDirective ln)) /\
+  (forall a b D T ln d B, Forall plain_line D -> Forall plain_line T -> ~ In b (map fst D) ->
+     segment tdir_of ((a, TLDirective 1) :: D ++ (b, TLDirective 0) :: T ++ (ln, TLDirective d) :: B)
+     = PErr (PDirective ln)) /\
+  (forall c d0 D T ln d B, Forall plain_line D -> Forall plain_line T -> ~ In d0 (map fst T) ->
+     segment tdir_of ((c, TLDirective 0) :: T ++ (d0, TLDirective 1) :: D ++ (ln, TLDirective d) :: B)
+     = PErr (PDirective ln)).
+Proof.
+  split; [exact segment_nil|].
+  split; [exact segment_undirected|].
+  split; [exact segment_only_text|].
+  split; [exact segment_only_data|].
+  split; [exact segment_data_text|].
+  split; [exact segment_text_data|].
+  split; [exact segment_undirected_data|].
+  split; [exact segment_second_data|].
+  split; [exact segment_second_text|].
+  split; [exact segment_text_after_undirected|].
+  split; [exact segment_third_directive_dt | exact segment_third_directive_td].
 Qed.
